@@ -4,7 +4,8 @@
 (* plus the lookups done afterwards; one state per row; a violated clause is  *)
 (* printed as <<"VERDICT", row id, clause, "reg"|"look", index, info>>.        *)
 (*                                                                             *)
-(* row.acts[i]   : [a, kind, ty, pat, func, res]   a in {setdef, use, end, reg} *)
+(* row.acts[i]   : [a, kind, ty, pat, func, res]   a in {setdef, use, end,      *)
+(*                 retype, reg}                                                 *)
 (*                 res (observed) in {ok, ignored, ambiguous, exc}              *)
 (* row.looks[k]  : [ty, toks, out, func, args, run, calls, pos, kw]             *)
 (*                 out in {none, match, error, exc}; func = 0: none / unknown   *)
@@ -45,6 +46,7 @@ RegVerdicts(st, a, idx) ==
    IN IF a.res \in allowed THEN {}
       ELSE IF a.res = "exc" THEN {V("C11.ambiguous", "reg", idx, mk)}
       ELSE IF strict /\ ~other THEN {V("C11.same_ignored", "reg", idx, mk)}
+      ELSE IF allowed = {"ambiguous"} THEN {V("C11.ambiguous", "reg", idx, mk)}       \* had to be rejected
       ELSE IF a.res = "ignored" THEN {V("C11.same_ignored", "reg", idx, mk)}
       ELSE {V("C11.ambiguous", "reg", idx, mk)}
 
@@ -52,9 +54,10 @@ StepAct(J, a, idx) ==
    CASE a.a = "use"    -> [J EXCEPT !.st = UseMatcher(@, a.kind)]
      [] a.a = "setdef" -> [J EXCEPT !.st = SetDefault(@, a.kind)]
      [] a.a = "end"    -> [J EXCEPT !.st = ModuleEnd(@)]
+     [] a.a = "retype" -> [J EXCEPT !.st = ReType(@)]
      [] a.a = "reg"    -> IF a.ty \notin Types \/ a.pat = <<>> THEN J
                           ELSE [st |-> IF a.res = "ok"       \* adopt what was observed
-                                       THEN [J.st EXCEPT !.steps[a.ty] = Append(@, Entry(a.pat, J.st.current, a.func))]
+                                       THEN [J.st EXCEPT !.steps[a.ty] = Append(@, Entry(a.pat, J.st.current, a.func, J.st.tver))]
                                        ELSE J.st,
                                 v  |-> J.v \cup RegVerdicts(J.st, a, idx)]
      [] OTHER -> J
